@@ -143,3 +143,56 @@ Example C34_labels_only_nonvacuous :
   limit_ratio Z Z hash 0x1p-1 [(2 ^ 62, 7); (2 ^ 63, 8)]%Z = Selected [(2 ^ 62, 7)]%Z /\
   limit_ratio Z Z hash 0x1p-1 [(5, 0); (2 ^ 62, 99)]%Z = Selected [(5, 0); (2 ^ 62, 99)]%Z.
 Proof. vm_compute. split; reflexivity. Qed.
+
+(* ---- range queries: a step-varying ratio is evaluated step by step ---- *)
+(* rangeEvalAgg with a non-constant parameter (fParams.Max/Min early return, NaN test, then
+   aggregationK per step) is exactly the per-step map of the instant semantics: the result at
+   step k is the instant selection with the ratio of step k (so every per-vector theorem above
+   applies at every step), and the query fails iff some step's ratio is NaN. *)
+Theorem C34_range_is_per_step : forall (L P : Type) (hash : L -> Z) fs (vs : list (list (L * P))),
+  length fs = length vs -> existsb PrimFloat.is_nan fs = false ->
+  limit_ratio_range L P hash fs vs =
+    RSelected (map (fun fv => step_select L P hash (fst fv) (snd fv)) (combine fs vs)) /\
+  forall f v, In (f, v) (combine fs vs) ->
+    limit_ratio L P hash f v = Selected (step_select L P hash f v).
+Proof.
+  intros L P hash fs vs Hl Hn. split; [now apply range_is_per_step|].
+  intros f v Hfv. apply step_is_instant.
+  apply Bool.not_true_is_false. intros E.
+  assert (Hx : existsb PrimFloat.is_nan fs = true).
+  { apply existsb_exists. exists f. split; [eapply in_combine_l; eassumption|exact E]. }
+  congruence.
+Qed.
+
+Theorem C34_range_nan_error : forall (L P : Type) (hash : L -> Z) fs (vs : list (list (L * P))),
+  existsb PrimFloat.is_nan fs = true -> limit_ratio_range L P hash fs vs = RErrNaN.
+Proof. exact range_nan. Qed.
+
+(* partition per step (partial in the same sense as C34_partition_vector_partial): ratios
+   r_k in [0,1], complements r_k - 1, offsets in [0,1) outside each step's gap: both range queries
+   succeed and at every step every sample present is in exactly one of the two selections.
+   Covers profiles where the complement's maximum over the steps is exactly 0 (r reaches 1). *)
+Theorem C34_range_partition_partial : forall (L P : Type) (hash : L -> Z) fs (vs : list (list (L * P))),
+  length fs = length vs ->
+  (forall f, In f fs -> (0 <=? f) = true /\ (f <=? 1) = true) ->
+  (forall f v s, In (f, v) (combine fs vs) -> In s v ->
+     let off := sample_offset (hash (fst s)) in
+     (0 <=? off) = true /\ (off <? 1) = true /\ in_gap f off = false) ->
+  limit_ratio_range L P hash fs vs =
+    RSelected (map (fun fv => step_select L P hash (fst fv) (snd fv)) (combine fs vs)) /\
+  limit_ratio_range L P hash (map complement fs) vs =
+    RSelected (map (fun fv => step_select L P hash (complement (fst fv)) (snd fv)) (combine fs vs)) /\
+  forall f v, In (f, v) (combine fs vs) -> forall s, In s v ->
+    (In s (step_select L P hash f v) <-> ~ In s (step_select L P hash (complement f) v)).
+Proof. exact range_partition. Qed.
+
+Example C34_range_nonvacuous :  (* r = (0.5, 1): the complement (-0.5, 0) has maximum exactly 0 *)
+  let hash := fun l : Z => l in
+  let v := [(2 ^ 62, tt); (2 ^ 63, tt); (2 ^ 63 + 2 ^ 62, tt)]%Z in
+  limit_ratio_range Z unit hash [0x1p-1; 1] [v; v] = RSelected [[(2 ^ 62, tt)]%Z; v] /\
+  limit_ratio_range Z unit hash (map complement [0x1p-1; 1]) [v; v] =
+    RSelected [[(2 ^ 63, tt); (2 ^ 63 + 2 ^ 62, tt)]%Z; []] /\
+  (params_max (map complement [0x1p-1; 1]) =? 0) = true /\
+  (params_min (map complement [0x1p-1; 1]) =? 0) = false /\
+  limit_ratio_range Z unit hash [0; -0] [v; v] = RSelected [[]; []].
+Proof. vm_compute. repeat split. Qed.
